@@ -228,9 +228,11 @@ func isCondOf(name, upstream string) bool {
 
 // genSequence: save / delete / delete-upstream / flush / tick / stop over 1..3 upstreams of the own shard and 1..2 of the
 // other shard, 3..12 operations after the initial Load, on top of 0..4 conditions that already exist in the API.
-func genSequence(g *vkit.Rand, mode string, bulk bool) sequence {
+func genSequence(g *vkit.Rand, mode string, bulk, single1 bool) sequence {
 	s := sequence{Mode: mode, Bulk: bulk}
-	if bulk || g.Chance(0.25) {
+	if single1 && !bulk {
+		s.Shards = 1 // constructed by the caller (every 12th sequence), not drawn: a minimum count must not depend on luck
+	} else if bulk || g.Chance(0.25) {
 		s.Shards = g.Range(3, 8) // a quarter of the sequences (and the bulk ones): 3..8 shards
 	} else if g.Chance(0.1) {
 		s.Shards = 1 // a single shard: every upstream is the store's own, there is no other shard
